@@ -27,7 +27,12 @@ def make_reg(width):
 
 def run_history(cfg, calls):
     """calls: spec call records (outcome fields are overwritten with what really happened)."""
-    b = csr.Builder(addr_width=cfg["aw"], data_width=cfg["dw"], granularity=cfg["gran"])
+    # "huge": the top 2^aw words of a 64-bit address space, every offset recorded relative to the base (the layout
+    # rule is translation-invariant for a base that is a multiple of 2^aw; the history starts with an explicit offset)
+    huge = cfg.get("huge", 0)
+    base = ((1 << 64) - (1 << cfg["aw"])) if huge else 0
+    ratio = cfg["dw"] // cfg["gran"]
+    b = csr.Builder(addr_width=64 if huge else cfg["aw"], data_width=cfg["dw"], granularity=cfg["gran"])
     regs, rid, cms, steps = {}, {}, [], []
     for c in calls:
         c = dict(c, ok=1)
@@ -43,7 +48,7 @@ def run_history(cfg, calls):
                 name = {"name_empty": "", "name_none": None, "name_int": 3}.get(bad, c["name"][2:])
                 kw = {}
                 if c["offset"] >= 0 or bad in ("offset_neg", "offset_str"):
-                    kw["offset"] = {"offset_neg": -4, "offset_str": "4"}.get(bad, c["offset"])
+                    kw["offset"] = {"offset_neg": -4, "offset_str": "4"}.get(bad, c["offset"] + base * ratio)
                 b.add(name, reg, **kw)
             elif c["call"] == "enter":
                 p = c["part"]
@@ -68,7 +73,7 @@ def run_history(cfg, calls):
                 b.freeze()
             elif c["call"] == "as_memory_map":
                 mm = b.as_memory_map()
-                o["resources"] = [[rid[id(r)], tag(n), s, e] for r, n, (s, e) in mm.resources()]
+                o["resources"] = [[rid[id(r)], tag(n), s - base, e - base] for r, n, (s, e) in mm.resources()]
         except Exception as e:
             c["ok"] = 0
             c["exc"] = type(e).__name__
@@ -97,6 +102,16 @@ def random_calls(r, cfg, length):
             out.append({"call": "exit", "bad": "none", "exc": 0})
         nreg += 1
         out.append({"call": "add", "reg": nreg, "name": "s:top", "offset": -1, "width": 8, "bad": "none"})
+    if r.random() < 0.25:
+        # an index and the digit string that prints alike, side by side under one scope: two different paths
+        k = r.choice([0, 1, 7])
+        out.append({"call": "enter", "part": "s:grp", "bad": "none"})
+        for part in r.sample([f"i:{k}", f"s:{k}"], 2):
+            out.append({"call": "enter", "part": part, "bad": "none"})
+            nreg += 1
+            out.append({"call": "add", "reg": nreg, "name": "s:ctrl", "offset": -1, "width": 8, "bad": "none"})
+            out.append({"call": "exit", "bad": "none", "exc": 0})
+        out.append({"call": "exit", "bad": "none", "exc": 0})
     if r.random() < 0.3:
         # an exception travels through one or two scopes; registers added afterwards are named by what is left
         p, q = r.sample(["s:a", "s:b", "s:grp", "i:0", "i:1", "i:7"], 2)
@@ -131,7 +146,7 @@ def random_calls(r, cfg, length):
                         "offset": off, "width": width, "bad": bad})
         elif x < 0.70 and depth < 3:
             bad = r.choice(["none"] * 8 + ["cluster_empty", "cluster_int", "index_neg", "index_str"])
-            part = r.choice(["s:a", "s:b", "s:grp", "i:0", "i:1", "i:7"])
+            part = r.choice(["s:a", "s:b", "s:grp", "i:0", "i:1", "i:7", "s:0", "s:1"])
             out.append({"call": "enter", "part": part, "bad": bad})
             if bad == "none":
                 depth += 1
@@ -196,7 +211,11 @@ def main(tier):
     for _ in range(1200 if thorough else 300):
         dw = r.choice([8, 16, 32, 64])
         cfg = {"aw": r.choice([3, 4, 5, 8]), "dw": dw, "gran": r.choice([g for g in (4, 8, 16, 32, 64) if dw % g == 0 and g <= dw])}
-        jobs.append((cfg, random_calls(r, cfg, r.randint(3, 14))))
+        calls = random_calls(r, cfg, r.randint(3, 14))
+        if r.random() < 0.15:
+            cfg = dict(cfg, huge=1)
+            calls = [{"call": "add", "reg": 900, "name": "s:anchor", "offset": 0, "width": r.choice([1, 8, 40]), "bad": "none"}] + calls
+        jobs.append((cfg, calls))
     traces = pmap(_job, jobs)
     fails = tracecheck.validate("CsrBuilder_Trace", "Cb", traces, run, "builder histories (legs B and C)")
     for fl in fails:
